@@ -578,7 +578,15 @@ func (d *vfPool) do(cmd vfPoolCmd) bool {
 		d.startRT(r, r.dir.cc.RoundTrip, "https://a.tld/r"+strconv.Itoa(r.r))
 	case "cancel":
 		r := d.req(cmd.R)
-		if r == nil || r.cx || r.held || r.st == "ret" {
+		ncx := 0
+		for _, x := range d.reqs {
+			if x.cx {
+				ncx++
+			}
+		}
+		// at most 2 cancelled requests per scenario: what a cancelled request did before it returned is not
+		// observable, so every one of them multiplies the branches TLC has to follow
+		if r == nil || r.cx || r.held || r.st == "ret" || ncx >= 2 {
 			return false
 		}
 		r.cx = true
@@ -598,6 +606,17 @@ func (d *vfPool) do(cmd vfPoolCmd) bool {
 		d.mu.Unlock()
 		if dl == nil {
 			return false
+		}
+		if cmd.E == "dialokc" {
+			live := 0
+			for _, r := range d.reqs {
+				if r.st != "ret" {
+					live++
+				}
+			}
+			if live > 2 {
+				cmd.E = "dialok" // a dead-on-arrival connection with many waiters: too many interleavings for TLC
+			}
 		}
 		d.emit(map[string]any{"e": cmd.E, "k": dl.k, "n": dl.n})
 		dl.gate <- map[string]int{"dialfail": 0, "dialok": 1, "dialokc": 2}[cmd.E]
